@@ -35,7 +35,12 @@ func WithNodeSpacing(spacing float64) Option {
 func WithNodeSize(sizes map[string]graph.Size) Option {
 	return func(o *options) {
 		o.params.NodeSizeFunc = func(n *ig.Node) {
-			n.Size = sizes[n.ID]
+			// only the nodes found in the map are resized, and only their size is set:
+			// other nodes keep the size set by WithNodeFixedSize, if any, and positions are left to the layout
+			if s, ok := sizes[n.ID]; ok {
+				n.W = s.W
+				n.H = s.H
+			}
 		}
 	}
 }
